@@ -117,13 +117,23 @@ class Trace:
             b, a, l = int(r[1]), int(r[2]), int(r[3])
             vals = [int(x) for x in r[4:]]
             sk, _ = take_params(oi.toks[-1], a)
-            for k in range(max(a, sk + len(vals))):
+            n = max(a, sk + len(vals))
+            ks = range(n)
+            if n > 200000:
+                # an astronomic chunk (extreme ranges): its consumed part, the positions next to it and its last positions
+                head = sk + len(vals) + 64
+                ks = list(range(min(n, head))) + list(range(max(head, n - 64), n))
+            for k in ks:
                 got = sk <= k < sk + len(vals)
                 out.append((b + k, vals[k - sk] if got else None, got))
         elif oi.op in LOOP_OPS:
             for (idx, val, _) in oi.visits:
                 out.append((idx, val, True))
         return out
+
+
+# sources longer than this (extreme ranges) are not enumerated position by position
+BIG_SRC = 2000000
 
 
 def pos_of(case, idx, val):
@@ -134,8 +144,8 @@ def pos_of(case, idx, val):
         return None          # zero-sized elements carry no identity
     if case.kind == "range":
         return val - case.start
-    vals = case.src_values()
-    return vals.index(val) if val in vals else None
+    case.src_values()
+    return case.pos_of_val(val)
 
 
 # ---- shared checks -------------------------------------------------------------------------------
@@ -165,7 +175,7 @@ def check_fidelity(tr):
     for oi in tr.ops:
         for (idx, val, consumed) in tr.deliveries(oi):
             if idx is None or val is None:
-                if idx is None and val is not None and c.kind != "range" and val not in c.src_values():
+                if idx is None and val is not None and c.kind != "range" and (c.src_values() is not None) and c.pos_of_val(val) is None:
                     bad.append("value %d is not an element of the source (line %s)" % (val, oi.ret))
                 continue
             if idx >= n:
@@ -318,7 +328,7 @@ def check_ks_events(tr):
 def check_C01(tr):
     bad = check_no_dup(tr) + check_unscripted_panic(tr) + check_stuck(tr)
     c = tr.case
-    if quiet_case(tr) and c.iters == 1 and (not c.is_iter() or c.fused()) and not c.has_op("get", "clone"):
+    if quiet_case(tr) and c.iters == 1 and (not c.is_iter() or c.fused()) and not c.has_op("get", "clone") and c.src_len() <= BIG_SRC:
         # "until each has observed the end": every thread's last pull saw the end
         last = {}
         for oi in tr.pulls():
@@ -684,6 +694,8 @@ def check_C10(tr):
         return ["into_seq_iter produced no result"]
     bad = []
     n = c.src_len()
+    if n > BIG_SRC:
+        return bad       # an astronomic range: its remainder cannot be listed
     dp = set(delivered_positions(tr))
     rest = [p for p in range(n) if p not in dp]
     want = [c.val_at(p) for p in rest]
@@ -790,7 +802,7 @@ def check_C12(tr):
     bad += check_no_dup(tr)
     bad += check_unscripted_panic(tr)
     bad += check_stuck(tr)
-    if quiet_case(tr) and (not c.is_iter() or c.fused()) and all(o.ret is not None and not o.panic for o in loops):
+    if quiet_case(tr) and (not c.is_iter() or c.fused()) and all(o.ret is not None and not o.panic for o in loops) and c.src_len() <= BIG_SRC:
         # every thread that pulls ends with a loop => everything is visited exactly once overall
         got = sorted(delivered_positions(tr))
         if got != list(range(c.src_len())):
